@@ -167,6 +167,51 @@ def task_reference(ctx, cfg, levels, lname, lmax, tname, tref, tref_dtype='float
               config=dict(grid=grids.cfg_name(cfg), levels=lname, lmax=lmax, tref=tname, **({'tref_dtype': tref_dtype} if tref_dtype != 'float64' else {})), scale_floor=1.0)
 
 
+def task_reference_moist(ctx, cfg, levels, lname, lmax, tname, tref, qbox=0.1):
+  """Total tendency of the MOIST equations (vorticity, divergence, temperature, surface pressure AND humidity) equals the independent weak-form
+  reference written from the physics (virtual temperature in the pressure-gradient force and the geopotential, moist kappa on the full
+  temperature, advected humidity): every coefficient with l <= lmax symbolic, humidity included and NOT small."""
+  from dinosaur import primitive_equations as pe
+  from checks.c05_reference import Reference
+  coords = models.make_coords(cfg, levels)
+  grid = coords.horizontal
+  specs = models.unit_specs(g=1.7, R=0.9, omega=0.8, radius=float(grid.radius))
+  rng = np.random.default_rng(13)
+  m, l = grid.modal_mesh
+  sup = grid.mask & (l <= lmax)
+  oro = rng.uniform(-0.3, 0.3, grid.modal_shape) * sup
+  tref = np.asarray(tref, float)
+  eq = pe.MoistPrimitiveEquations(tref, oro, coords, specs)
+  ref = Reference(grid, cfg, levels, R=specs.R, kappa=specs.kappa, g=specs.g, omega=specs.angular_velocity, tref=tref, orography_modal=oro)
+  ctx.encoded(pe.MoistPrimitiveEquations.explicit_terms, pe.MoistPrimitiveEquations.implicit_terms, pe.MoistPrimitiveEquations.curl_and_div_tendencies,
+              pe.MoistPrimitiveEquations.nodal_temperature_adiabatic_tendency, pe.MoistPrimitiveEquations.divergence_tendency_due_to_humidity,
+              pe.MoistPrimitiveEquations.vorticity_tendency_due_to_humidity, pe.MoistPrimitiveEquations._virtual_temperature, pe.get_geopotential_diff)
+  cp_ratio = float(specs.Cp_vapor / specs.Cp)
+  conf = dict(grid=grids.cfg_name(cfg), levels=lname, lmax=lmax, tref=tname, humidity_coefficient_box=qbox)
+
+  def both(v, d, t, p, q):
+    return _total(eq, 'moist', v, d, t, p, {'specific_humidity': q}), ref.tendency_moist(v, d, t, p, q, R_vapor=float(specs.R_vapor), cp_ratio=cp_ratio)
+  # (1) humidity with every coefficient l <= lmax symbolic: vorticity, divergence, surface pressure and humidity tendencies (polynomial in the state).
+  #     The temperature leaf is excluded here: its moist kappa is a rational function of the nodal humidity, and two ways of writing it only agree
+  #     modulo r * (1 + c q) = 1 at every node, which the normal form cannot use when q at a node depends on several coefficients.
+  sp = Space(bits=10)
+  xs = models.pe_state_vars(sp, coords, support=sup, tracers=['specific_humidity'], tracer_box={'specific_humidity': qbox})
+  K = coords.vertical.layers
+  ms = coords.modal_shape; ss = coords.surface_modal_shape
+  sel = [np.ones(ms, bool), np.ones(ms, bool), np.zeros(ms, bool), np.ones(ss, bool), np.ones(ms, bool)]
+  prove_close(ctx, 'reference.moist_momentum_mass_and_humidity_tendencies_equal_pointwise_continuous_equations', both, xs, sp, select=sel,
+              config=dict(conf, humidity='every coefficient with l <= lmax'), scale_floor=1.0)
+  # (2) temperature: humidity horizontally uniform but different (and not small) in every layer, everything else with l <= lmax symbolic; the
+  #     reciprocal atoms then have arguments affine in ONE variable and both sides are brought to the normal form modulo r (1 + c q_k) = 1
+  sp2 = Space(bits=10)
+  m_, l_ = grid.modal_mesh
+  xs2 = models.pe_state_vars(sp2, coords, support=sup)
+  q0 = PolyArr.variables(sp2, 'q0', ms, -3 * qbox, 3 * qbox, free=np.broadcast_to((m_ == 0) & (l_ == 0), ms))
+  sel2 = [np.zeros(ms, bool), np.zeros(ms, bool), np.ones(ms, bool), np.zeros(ss, bool), np.zeros(ms, bool)]
+  prove_close(ctx, 'reference.moist_temperature_tendency_equals_pointwise_continuous_equations', both, xs2 + [q0], sp2, select=sel2, reduce_atoms=True,
+              config=dict(conf, humidity='uniform per layer, symbolic in +-%g (nodal value +-%g)' % (3 * qbox, 3 * qbox / SQRT4PI)), scale_floor=1.0)
+
+
 def task_reference_sw(ctx, cfg, nlayers, lmax, with_orography=True):
   """Total tendency of the layered shallow-water equations equals the independent weak-form reference (ReferenceSW)
   on alias-free inputs: every coefficient with l <= lmax symbolic in every layer; densities, reference potentials and
@@ -253,6 +298,7 @@ def make_tasks(tier, seed):
   tasks.append(dict(name='moist-eq-dry', fn='task_moist_equals_dry', kw=dict(cfg=cfg, levels=LS['dy2'].tolist(), lname='dy2')))
   refg = dict(M=3, L=6, nlon=16, nlat=8, radius=1.3)
   tasks.append(dict(name='reference-l1', fn='task_reference', kw=dict(cfg=refg, levels=LS['dy3'].tolist(), lname='dy3', lmax=1, tname='linear', tref=np.linspace(0.8, 1.5, 3).tolist())))
+  tasks.append(dict(name='reference-moist-l1', fn='task_reference_moist', kw=dict(cfg=refg, levels=LS['dy3'].tolist(), lname='dy3', lmax=1, tname='linear', tref=np.linspace(0.8, 1.5, 3).tolist())))
   tasks.append(dict(name='reference-l1-integer-tref', fn='task_reference', kw=dict(cfg=refg, levels=LS['dy3'].tolist(), lname='dy3', lmax=1, tname='integer-valued', tref=[1, 2, 4], tref_dtype='int64')))
   tasks.append(dict(name='reference-sw-2layer-l1', fn='task_reference_sw', kw=dict(cfg=refg, nlayers=2, lmax=1)))
   if tier != 'quick':
